@@ -1,4 +1,4 @@
 SPECIFICATION Spec
-CONSTANTS N = 4
+CONSTANTS N = 5
 INVARIANTS Refines FiveFields NoGreaseToken
 CHECK_DEADLOCK FALSE
